@@ -7,12 +7,14 @@ metas = {}
 for f in sorted(os.listdir(os.path.join(ROOT, "checks"))):
     if f.endswith(".meta.json"):
         m = json.load(open(os.path.join(ROOT, "checks", f)))
+        m.setdefault("property_id", f.split(".")[0].upper())
         metas[m["property_id"]] = m
+approved = set(open(os.path.join(ROOT, "checks", "CLAIMED")).read().split())
 checks, na = [], []
 for p in props:
     i = p["id"]
     m = metas.get(i)
-    if m and m.get("claimed", True):
+    if m and m.get("claimed", True) and i in approved:
         checks.append({
             "property_id": i,
             "quick_cmd": "python3 bin/check %s --tier quick" % i,
